@@ -31,13 +31,13 @@ func Run(s Script, base world.Cfg, opt Options, out io.Writer) (*world.World, er
 	w := world.New(cfg)
 	enc := json.NewEncoder(out)
 	enc.SetEscapeHTML(false)
-	if err := enc.Encode(world.J{"k": "reset", "id": s.Id, "family": s.Family, "cfg": cfgJSON(cfg), "post": w.Project()}); err != nil {
+	if err := enc.Encode(world.J{"k": "reset", "id": s.Id, "family": s.Family, "cfg": cfgJSON(cfg), "aux": w.Aux(), "post": w.Project()}); err != nil {
 		return w, err
 	}
 	for i, a := range s.Acts {
 		a["i"] = i + 1
 		o := w.Exec(a)
-		line := world.J{"k": "step", "i": i + 1, "act": a, "res": o}
+		line := world.J{"k": "step", "i": i + 1, "act": w.Canon(a), "res": o}
 		if !opt.NoPost {
 			line["post"] = w.Project()
 		}
@@ -56,8 +56,13 @@ func Run(s Script, base world.Cfg, opt Options, out io.Writer) (*world.World, er
 
 func cfgJSON(c world.Cfg) interface{} {
 	bz, _ := json.Marshal(c)
-	var v interface{}
+	var v map[string]interface{}
 	_ = json.Unmarshal(bz, &v)
+	for k, x := range v { // TLC's Json module has no null
+		if x == nil {
+			delete(v, k)
+		}
+	}
 	return v
 }
 
